@@ -1,26 +1,26 @@
 SPECIFICATION Spec
 CONSTANTS
-  MaxPg = 3
-  MaxOps = 3
+  MaxPg = 2
+  MaxOps = 5
   BlockOf <- BlockL1
   LockPg = 0
-  AllowWAL = FALSE
-  FinModes = {"DELETE", "TRUNCATE", "PERSIST"}
-  AllowSpill = TRUE
-  AllowBeyond = TRUE
+  AllowWAL = TRUE
+  FinModes = {"DELETE", "PERSIST"}
+  AllowSpill = FALSE
+  AllowBeyond = FALSE
   FixBeyond = TRUE
-  AllowNoSync = TRUE
+  AllowNoSync = FALSE
   FixOOB = TRUE
   FixFirstRb = TRUE
   AllowCrash = FALSE
   FixJournalNoPS = TRUE
   FixModeOnOpen = TRUE
   AllowFreeReuse = FALSE
-  AllowFromWal = FALSE
-  FixModeSwitch = TRUE
+  AllowFromWal = TRUE
+  FixModeSwitch = FALSE
   AllowDropDB = FALSE
   AllowRetain = FALSE
-  Emit = "idle"
+  Emit = "none"
 VIEW view
 INVARIANTS NoFault C04_Checksum C02_Image C02_Delta C02_Outcome C09_Chain CacheSound EmitInv
 PROPERTIES C02_AtMostOne
